@@ -18,6 +18,12 @@
 
 #define B_TOTAL_EXP 16U
 #define B_BLOCK_EXP 6U
+#ifdef ROOTSIM_VERIF_B_TOTAL_EXP
+#undef B_TOTAL_EXP
+#undef B_BLOCK_EXP
+#define B_TOTAL_EXP ROOTSIM_VERIF_B_TOTAL_EXP
+#define B_BLOCK_EXP ROOTSIM_VERIF_B_BLOCK_EXP
+#endif
 
 #define next_exp_of_2(i) (sizeof(i) * CHAR_BIT - intrinsics_clz(i))
 #define buddy_allocation_block_compute(req_size) next_exp_of_2(max(req_size, 1U << B_BLOCK_EXP) - 1);
